@@ -4,6 +4,7 @@ import (
 	"go/token"
 	"go/types"
 	"regexp"
+	"strings"
 
 	"golang.org/x/tools/go/ssa"
 )
@@ -14,15 +15,18 @@ import (
 type RetSpec struct {
 	Index int
 	Want  string
+	// Also, when set, further restricts the returns to those whose full rendering matches (e.g. `^return zero, nil$`
+	// for the "proceed" outcome of a reconcile step: empty Result and nil error).
+	Also string
 }
 
 var (
-	RetOK    = RetSpec{-1, "nil"}
-	RetTrue  = RetSpec{-1, "true"}
-	RetFalse = RetSpec{-1, "false"}
-	RetAny   = RetSpec{-1, "any"}
+	RetOK    = RetSpec{Index: -1, Want: "nil"}
+	RetTrue  = RetSpec{Index: -1, Want: "true"}
+	RetFalse = RetSpec{Index: -1, Want: "false"}
+	RetAny   = RetSpec{Index: -1, Want: "any"}
 	// RetNilConst selects only returns whose error operand is the literal nil
-	RetNilConst = RetSpec{-1, "nilconst"}
+	RetNilConst = RetSpec{Index: -1, Want: "nilconst"}
 )
 
 // RetSink is one way a function can return the outcome of interest.
@@ -59,9 +63,27 @@ func (w *World) knownNonNil(v ssa.Value, at *ssa.BasicBlock) bool {
 	}
 	// guarded by a dominating "v != nil" edge
 	fn := at.Parent()
+	// edges on which v (possibly wrapped in Ignore* helpers, which map nil to nil) was tested non-nil
 	want := Lit{false, w.Render(v) + " == nil"}
 	c := newCut()
 	for _, b := range fn.Blocks {
+		if len(b.Instrs) == 0 {
+			continue
+		}
+		if ifi, ok := b.Instrs[len(b.Instrs)-1].(*ssa.If); ok && len(b.Succs) == 2 && b.Succs[0] != b.Succs[1] {
+			if x, errEdge, ok := errTest(ifi.Cond); ok {
+				for {
+					call, isCall := x.(*ssa.Call)
+					if !isCall || call.Call.StaticCallee() == nil || len(call.Call.Args) != 1 || !strings.HasPrefix(call.Call.StaticCallee().Name(), "Ignore") {
+						break
+					}
+					x = call.Call.Args[0]
+				}
+				if x == v {
+					c.Edges[EdgeKey{b, errEdge}] = true
+				}
+			}
+		}
 		t, f, ok := w.BlockLits(b)
 		if !ok {
 			continue
@@ -134,6 +156,9 @@ func (w *World) ReturnSinks(fn *ssa.Function, spec RetSpec) []RetSink {
 		}
 		ret, ok := b.Instrs[len(b.Instrs)-1].(*ssa.Return)
 		if !ok {
+			continue
+		}
+		if spec.Also != "" && !regexp.MustCompile(spec.Also).MatchString(w.RenderInstr(ret)) {
 			continue
 		}
 		if spec.Want == "any" || len(ret.Results) == 0 {
